@@ -23,6 +23,7 @@ package storage
 
 import (
 	"fmt"
+	"math"
 	"sort"
 	"strings"
 	"sync/atomic"
@@ -212,7 +213,7 @@ func c19Match(vt chunkenc.ValueType, it chunkenc.Iterator, slot c19Slot, wantGot
 // then drains with Next. checkAfterEnd: keep comparing operations issued after exhaustion
 // (requires the INPUT iterators to honour "exhausted stays exhausted", which the list iterators
 // do and the XOR chunk iterator does not).
-func c19RunOps(it chunkenc.Iterator, model []c19Slot, ops []int, checkAfterEnd bool, trace *strings.Builder) (sig, msg string) {
+func c19RunOps(it chunkenc.Iterator, model []c19Slot, ops []int, targets []int64, checkAfterEnd bool, trace *strings.Builder) (sig, msg string) {
 	n := len(model)
 	p := -1
 	done := false
@@ -220,7 +221,7 @@ func c19RunOps(it chunkenc.Iterator, model []c19Slot, ops []int, checkAfterEnd b
 		if op == 0 {
 			return "Next"
 		}
-		return fmt.Sprintf("Seek(%d)", op-1)
+		return fmt.Sprintf("Seek(%d)", targets[op-1])
 	}
 	step := func(op int, vt chunkenc.ValueType, wantPos int) (string, string) {
 		// wantPos == n : exhausted
@@ -267,7 +268,7 @@ func c19RunOps(it chunkenc.Iterator, model []c19Slot, ops []int, checkAfterEnd b
 			}
 			continue
 		}
-		t := int64(op - 1)
+		t := targets[op-1]
 		vt := it.Seek(t)
 		switch {
 		case done:
@@ -315,6 +316,32 @@ type c19SeriesCfg struct {
 	Kinds   int    `json:"kinds"`   // 3: absent/float/hist, 4: + float histogram
 	K       int    `json:"k"`       // number of inputs
 	Depth   int    `json:"depth"`   // op sequence length
+	Extreme bool   `json:"extreme"` // grid = int64 extremes instead of 1..T
+}
+
+func c19SC(fl string, T, kinds, k, depth int, extreme bool) c19SeriesCfg {
+	return c19SeriesCfg{Flavour: fl, T: T, Kinds: kinds, K: k, Depth: depth, Extreme: extreme}
+}
+
+var c19ExtremeGrid = []int64{math.MinInt64, math.MinInt64 + 1, math.MaxInt64}
+
+func (cfg c19SeriesCfg) time(t int) int64 {
+	if cfg.Extreme {
+		return c19ExtremeGrid[t-1]
+	}
+	return int64(t)
+}
+
+// Seek targets: 0..T+1, or every extreme grid point and its neighbours.
+func (cfg c19SeriesCfg) targets() []int64 {
+	if cfg.Extreme {
+		return []int64{math.MinInt64, math.MinInt64 + 1, 0, math.MaxInt64 - 1, math.MaxInt64}
+	}
+	var out []int64
+	for t := 0; t <= cfg.T+1; t++ {
+		out = append(out, int64(t))
+	}
+	return out
 }
 
 // list number a of the alphabet: digit d_t (base kinds) for time t.
@@ -324,7 +351,7 @@ func c19ListAt(cfg c19SeriesCfg, a, input int) []c19Sample {
 		kind := a % cfg.Kinds
 		a /= cfg.Kinds
 		if kind != c19Absent {
-			out = append(out, c19Mk(kind, int64(t), 10*(input+1)+t))
+			out = append(out, c19Mk(kind, cfg.time(t), 10*(input+1)+t))
 		}
 	}
 	return out
@@ -395,9 +422,30 @@ func c19SeriesCombo(r *vx.Run, cfg c19SeriesCfg, combo int64, mk func([]Series) 
 		series[i] = c19SeriesFor(cfg, in)
 	}
 	merged := mk(series)
-	nops := cfg.T + 3 // Next, Seek(0) .. Seek(T+1)
+	targets := cfg.targets()
+	nops := 1 + len(targets) // Next, Seek(target)...
 	report := func(sig, msg string, ops []int, reused bool) {
-		r.Violation(sig, fmt.Sprintf("%s  [inputs %v; merged timestamps %v; ops %s; reused iterator=%v; config %+v]", msg, inputs, c19Times(model), c19OpNames(ops), reused, cfg),
+		if cfg.Extreme {
+			// Narrow classes for the int64-extreme grid (each names its precondition):
+			hasMin := len(model) > 0 && model[0].t == math.MinInt64
+			seekMin := false
+			for _, o := range ops {
+				if o > 0 && targets[o-1] == math.MinInt64 {
+					seekMin = true
+				}
+			}
+			switch {
+			case reused && seekMin:
+				// (a combination with a MinInt64 sample that suffers from the sentinel defect has
+				// already failed in the fresh-iterator pass and never gets here)
+				sig = "merge-iter-reused-iterator-seek-minint64-stale-cursor"
+			case hasMin:
+				sig = "merge-iter-sample-at-minint64-timestamp-mishandled"
+			default:
+				sig += "-at-int64-extreme"
+			}
+		}
+		r.Violation(sig, fmt.Sprintf("%s  [inputs %v; merged timestamps %v; ops %s; reused iterator=%v; config %+v]", msg, inputs, c19Times(model), c19OpNames(ops, targets), reused, cfg),
 			map[string]any{"part": "series", "cfg": cfg, "combo": combo})
 	}
 	checkAfterEnd := cfg.Flavour == "list"
@@ -411,7 +459,7 @@ func c19SeriesCombo(r *vx.Run, cfg c19SeriesCfg, combo int64, mk func([]Series) 
 			tr = &strings.Builder{}
 		}
 		p, stack := vx.Guard(func() {
-			sig, msg = c19RunOps(merged.Iterator(nil), model, ops, checkAfterEnd, tr)
+			sig, msg = c19RunOps(merged.Iterator(nil), model, ops, targets, checkAfterEnd, tr)
 		})
 		if p != nil {
 			report("merge-iter-panic", fmt.Sprintf("panic %v\n%s", p, c19Trim(stack)), ops, false)
@@ -436,7 +484,7 @@ func c19SeriesCombo(r *vx.Run, cfg c19SeriesCfg, combo int64, mk func([]Series) 
 		var sig, msg string
 		p, stack := vx.Guard(func() {
 			it = merged.Iterator(it)
-			sig, msg = c19RunOps(it, model, ops, checkAfterEnd, nil)
+			sig, msg = c19RunOps(it, model, ops, targets, checkAfterEnd, nil)
 		})
 		if p != nil {
 			report("merge-iter-panic", fmt.Sprintf("panic %v\n%s", p, c19Trim(stack)), ops, true)
@@ -452,7 +500,7 @@ func c19SeriesCombo(r *vx.Run, cfg c19SeriesCfg, combo int64, mk func([]Series) 
 			if i%2 == 0 {
 				it.Next()
 			} else {
-				it.Seek(2)
+				it.Seek(targets[2])
 			}
 		})
 		sequences++
@@ -468,13 +516,13 @@ func c19Times(model []c19Slot) []int64 {
 	return out
 }
 
-func c19OpNames(ops []int) string {
+func c19OpNames(ops []int, targets []int64) string {
 	var s []string
 	for _, o := range ops {
 		if o == 0 {
 			s = append(s, "Next")
 		} else {
-			s = append(s, fmt.Sprintf("Seek(%d)", o-1))
+			s = append(s, fmt.Sprintf("Seek(%d)", targets[o-1]))
 		}
 	}
 	return strings.Join(s, ",")
@@ -897,7 +945,7 @@ func c19SetCombo(r *vx.Run, cfg c19SetCfg, combo int64) (nseries int) {
 				return
 			}
 			it = s.Iterator(it)
-			if sig, msg := c19RunOps(it, wantModels[idx], nil, true, nil); sig != "" {
+			if sig, msg := c19RunOps(it, wantModels[idx], nil, nil, true, nil); sig != "" {
 				fail(sig, fmt.Sprintf("series %s: %s", s.Labels(), msg))
 				return
 			}
@@ -995,21 +1043,21 @@ func c19SelfTest(t *testing.T) {
 	model := c19Model([][]c19Sample{a, b})
 	// a "merge" that does not de-duplicate t=2
 	bad := []c19Sample{a[0], a[1], b[0], b[1]}
-	if sig, _ := c19RunOps(NewListSeriesIterator(samples(c19ToSamples(bad))), model, nil, true, nil); sig == "" {
+	if sig, _ := c19RunOps(NewListSeriesIterator(samples(c19ToSamples(bad))), model, nil, []int64{0, 1, 2, 3, 4}, true, nil); sig == "" {
 		t.Fatal("self-test: oracle accepted a merge with a duplicated timestamp")
 	}
 	// a merge that loses the histogram
-	if sig, _ := c19RunOps(NewListSeriesIterator(samples(c19ToSamples(bad[:2]))), model, nil, true, nil); sig != "merge-iter-lost-sample" {
+	if sig, _ := c19RunOps(NewListSeriesIterator(samples(c19ToSamples(bad[:2]))), model, nil, []int64{0, 1, 2, 3, 4}, true, nil); sig != "merge-iter-lost-sample" {
 		t.Fatalf("self-test: oracle did not notice a lost sample (%q)", sig)
 	}
 	// a merge that invents a value
 	inv := []c19Sample{a[0], c19Mk(c19Float, 2, 99), b[1]}
-	if sig, _ := c19RunOps(NewListSeriesIterator(samples(c19ToSamples(inv))), model, nil, true, nil); sig != "merge-iter-wrong-sample" {
+	if sig, _ := c19RunOps(NewListSeriesIterator(samples(c19ToSamples(inv))), model, nil, []int64{0, 1, 2, 3, 4}, true, nil); sig != "merge-iter-wrong-sample" {
 		t.Fatalf("self-test: oracle did not notice an invented value (%q)", sig)
 	}
 	// a correct one, with a Seek that must not move backwards
 	good := []c19Sample{a[0], b[0], b[1]}
-	if sig, msg := c19RunOps(NewListSeriesIterator(samples(c19ToSamples(good))), model, []int{3, 1, 0, 5, 0}, true, nil); sig != "" {
+	if sig, msg := c19RunOps(NewListSeriesIterator(samples(c19ToSamples(good))), model, []int{3, 1, 0, 5, 0}, []int64{0, 1, 2, 3, 4}, true, nil); sig != "" {
 		t.Fatalf("self-test: oracle rejected a correct iterator: %s %s", sig, msg)
 	}
 	// chunk oracle: overlapping output must be rejected
@@ -1037,7 +1085,8 @@ func TestVerifC19(t *testing.T) {
 		switch rp.Part {
 		case "series":
 			fl, _ := rp.Cfg["flavour"].(string)
-			cfg := c19SeriesCfg{Flavour: fl, T: geti("T"), Kinds: geti("kinds"), K: geti("k"), Depth: geti("depth")}
+			ex, _ := rp.Cfg["extreme"].(bool)
+			cfg := c19SeriesCfg{Flavour: fl, T: geti("T"), Kinds: geti("kinds"), K: geti("k"), Depth: geti("depth"), Extreme: ex}
 			c19SeriesCombo(r, cfg, rp.Combo, func(s []Series) Series { return ChainedSeriesMerge(s...) })
 		case "chunks":
 			cfg := c19ChunkCfg{T: geti("T"), K: geti("k")}
@@ -1057,10 +1106,10 @@ func TestVerifC19(t *testing.T) {
 	var lcfgs []c19SetCfg
 	if r.Quick() {
 		for k := 1; k <= 3; k++ {
-			scfgs = append(scfgs, c19SeriesCfg{"list", 3, 3, k, 4})
+			scfgs = append(scfgs, c19SC("list", 3, 3, k, 4, false))
 		}
 		for k := 1; k <= 2; k++ {
-			scfgs = append(scfgs, c19SeriesCfg{"chunk", 3, 3, k, 4})
+			scfgs = append(scfgs, c19SC("chunk", 3, 3, k, 4, false))
 		}
 		for k := 1; k <= 3; k++ {
 			ccfgs = append(ccfgs, c19ChunkCfg{3, k})
@@ -1070,19 +1119,23 @@ func TestVerifC19(t *testing.T) {
 		}
 	} else {
 		for k := 1; k <= 3; k++ {
-			scfgs = append(scfgs, c19SeriesCfg{"list", 3, 3, k, 5})
+			scfgs = append(scfgs, c19SC("list", 3, 3, k, 5, false))
 		}
-		scfgs = append(scfgs, c19SeriesCfg{"list", 3, 3, 2, 6})
-		scfgs = append(scfgs, c19SeriesCfg{"list", 4, 3, 1, 4}, c19SeriesCfg{"list", 4, 3, 2, 4}, c19SeriesCfg{"list", 4, 3, 3, 2})
-		scfgs = append(scfgs, c19SeriesCfg{"list", 3, 4, 1, 4}, c19SeriesCfg{"list", 3, 4, 2, 4}, c19SeriesCfg{"list", 3, 4, 3, 3})
-		scfgs = append(scfgs, c19SeriesCfg{"list", 3, 3, 4, 2})
-		scfgs = append(scfgs, c19SeriesCfg{"chunk", 3, 4, 1, 4}, c19SeriesCfg{"chunk", 3, 4, 2, 4}, c19SeriesCfg{"chunk", 3, 3, 3, 3})
+		scfgs = append(scfgs, c19SC("list", 3, 3, 2, 6, false))
+		scfgs = append(scfgs, c19SC("list", 4, 3, 1, 4, false), c19SC("list", 4, 3, 2, 4, false), c19SC("list", 4, 3, 3, 2, false))
+		scfgs = append(scfgs, c19SC("list", 3, 4, 1, 4, false), c19SC("list", 3, 4, 2, 4, false), c19SC("list", 3, 4, 3, 3, false))
+		scfgs = append(scfgs, c19SC("list", 3, 3, 4, 2, false))
+		scfgs = append(scfgs, c19SC("chunk", 3, 4, 1, 4, false), c19SC("chunk", 3, 4, 2, 4, false), c19SC("chunk", 3, 3, 3, 3, false))
 		for k := 1; k <= 3; k++ {
 			ccfgs = append(ccfgs, c19ChunkCfg{4, k})
 		}
 		for k := 0; k <= 5; k++ {
 			lcfgs = append(lcfgs, c19SetCfg{k})
 		}
+	}
+	// int64 extremes as timestamps and Seek targets (list and chunk backed, k<=2, depth 3)
+	for k := 1; k <= 2; k++ {
+		scfgs = append(scfgs, c19SC("list", 3, 3, k, 3, true), c19SC("chunk", 3, 3, k, 3, true))
 	}
 	t0 := time.Now()
 	c19SetPart(r, lcfgs)
